@@ -80,11 +80,15 @@ MANIFEST = ('<?xml version="1.0" encoding="UTF-8"?><manifest:manifest xmlns:mani
             '<manifest:file-entry manifest:full-path="content.xml" manifest:media-type="text/xml"/></manifest:manifest>')
 
 
-def write_ods(path, content, with_content=True):
+def write_ods(path, content, with_content=True, encoding="utf-8", declared=None, trailer=""):
+    """encoding / declared / trailer: content.xml in another encoding of XML (declared in its XML declaration), with white
+    space behind the root element."""
     with zipfile.ZipFile(path, "w", zipfile.ZIP_DEFLATED) as archive:
         archive.writestr(zipfile.ZipInfo("mimetype"), "application/vnd.oasis.opendocument.spreadsheet", zipfile.ZIP_STORED)
         if with_content:
-            archive.writestr("content.xml", content.encode("utf-8"))
+            if declared is not None:
+                content = content.replace('encoding="UTF-8"', 'encoding="%s"' % declared, 1)
+            archive.writestr("content.xml", (content + trailer).encode(encoding))
         archive.writestr("META-INF/manifest.xml", MANIFEST)
 
 
